@@ -6,9 +6,10 @@ structural necessary conditions of the two copies of the algorithm
 immutable.happiness_upload._compute_maximum_graph) and of their shared helpers
 (DESIGN.md section 5, C08)."""
 from sa.h import *
-from sa.rules.C07 import (Flow, PairRecord, body_skips, container_stores, creators_of, enclosing_for, escaping_stores2,
-                          fact_gate, fresh_mutable, fromkeys_shared, iter_node, loops_over, on_cycle, r9_alias,
-                          returned_name, shared_slots, sink_terms, unwrap, unwrap_view)
+from sa.rules.C07 import (Flow, PairRecord, body_skips, container_stores, creators_of, ek_confinement_rule, enclosing_for,
+                          escaping_stores2, fact_gate, fresh_mutable, fromkeys_shared, iter_node, loops_over,
+                          no_persistent_state_rule, on_cycle, r9_alias, returned_name, shared_slots, sink_terms, unwrap,
+                          unwrap_view)
 
 EXPLANATION = (
     "Decided (structural, all paths), in BOTH copies of Edmonds-Karp: (1) derived-value freshness: after any store to "
@@ -28,15 +29,27 @@ EXPLANATION = (
     "where the server is known to have none, no other pair is recorded, the result is returned after the last share; no "
     "set object is put under two servers while the held sets are changed in place (object created outside the loop "
     "that stores it and never re-bound on a way round that loop, dict.fromkeys(.., <mutable>)) - swept over happinessutil "
-    "and the Edmonds-Karp helpers. "
+    "and the Edmonds-Karp helpers; (6) the value is a function of the share map's current contents: in no function of "
+    "the computation (servers_of_happiness and every package function it calls) does state that outlives the call "
+    "(module-level name re-bound through `global`, module-level container / function or class attribute changed from "
+    "inside a function - also through a local alias - with values that depend on a parameter or on such state, mutable "
+    "default argument changed in place) reach a branch, a returned value, an argument of another function of the "
+    "computation or an object of the caller; (7) in both copies the flow table is written by nothing but the "
+    "augmentation pair along an augmenting path (interprocedural who-writes analysis through aliases, row objects and "
+    "every package function the table is handed to), so it is a flow at every loop test. "
     "Deliberately not demanded (no effect on the value): the order of the edges inside the augmenting path, the residual "
     "capacity entries of the direction that is not a residual edge (cf = -1 / 0, never read), bfs distance and BLACK "
     "bookkeeping, how the per-vertex tables are spelled ([x for ..] or [x] * n). "
-    "Undecided: that the flow found is maximum (termination and optimality of Edmonds-Karp), dict/set iteration order "
+    "Undecided: whether remembered state (6) is keyed by the full contents of the map (such a cache would be correct; it is "
+    "reported as well - statistics that are only written and values built once from constants are recognised and not "
+    "reported); whether a writer other than the augmentation pair (7) happens to leave a valid flow; "
+    "that the flow found is maximum (termination and optimality of Edmonds-Karp), dict/set iteration order "
     "(the max-flow value is unique, so the result does not depend on it once 1-4 hold).")
 TECHNIQUE = ("static analysis: CFG x staleness monitor for the derived residual network (R2), normal-form agreement of "
              "the update pair and of the vertex numbering (R5), edge-fact dominance in bfs, CFG x (recorded, "
-             "key-known-absent) monitor and loop-escape alias rule through the container (R9) for the inversion")
+             "key-known-absent) monitor and loop-escape alias rule through the container (R9) for the inversion, "
+             "taint of call-outliving module state into branches / results over the call closure, interprocedural "
+             "who-writes (escape) analysis of the flow table")
 
 HU = "immutable.happiness_upload"
 HZ = "util.happinessutil"
@@ -845,6 +858,22 @@ def run(ctx: Context):
                             "the objects held by %s are changed in place at line %s: a share added for one server shows on "
                             "all of them" % (src(f, v), cpath, cpath, ",".join(str(m.lineno) for m in muts)))
         ctx.note("C08.5: %d insertions of locally created containers inside loops examined" % total)
+
+    # ------------------------------------------------------------------ 6
+    with ctx.rule("C08.6", "R2", "the happiness value is a function of the share map's current contents: in no function of "
+                  "the computation (servers_of_happiness, shares_by_server, _flow_network_for, _reindex, residual_network, "
+                  "augmenting_path_for, bfs) does state that outlives the call - a module-level name re-bound through "
+                  "`global`, a module-level container or function/class attribute changed from inside a function with "
+                  "values that depend on the arguments, a mutable default argument changed in place - reach a branch, a "
+                  "returned value or an argument of another function of the computation", expected=7) as r:
+        no_persistent_state_rule(r, idx, [idx.func(HZ + ":servers_of_happiness")], "happiness value")
+
+    # ------------------------------------------------------------------ 7
+    with ctx.rule("C08.7", "R5", "the flow table is always a flow: created zero (rule 2), it is written by nothing but the "
+                  "augmentation pair along an augmenting path - no function it is handed to, no alias, no row object taken "
+                  "from it stores into it (both copies; interprocedural who-writes analysis)", expected=4) as r:
+        for q in COPIES:
+            ek_confinement_rule(r, idx.func(q), "Edmonds-Karp copy %s" % q.split(":", 1)[1], idx)
 
 
 def _origin_at_def(fl, use_node, via_name, x):
